@@ -260,7 +260,10 @@ theorem kill_never_removed {ok : Sys → Action → Prop} {j0 : JobObj} {s s' : 
           unfold specWrite
           simp only
           rw [(sync_spec sp jo sp (CreatePhase.refl _)).2.kill]; exact this
-        | ctlStatus jo sp rv _ _ _ _ => cases hy; exact ih x jo hx rfl h)
+        | ctlStatus jo sp rv _ _ _ _ => cases hy; exact ih x jo hx rfl h
+        | ctlStatusOn jo sp rv0 rv _ _ _ _ =>
+          cases hy
+          exact ih x (specWrite jo { jo with job := (sync sp jo).2.1, finalizer := (sync sp jo).2.2.1 } rv0) hx rfl h)
     hr hs j j' hj hj'
   exact key hk
 
